@@ -54,5 +54,10 @@ ROWS = {
   "property-based testing (rapid) with structure-addressed size-field edits; runtime.MemStats.TotalAlloc measured in an isolated, address-space-limited worker",
   "Samples and encoder output in every container get 1-3 count/size/length fields overwritten with 2^24..2^32-1 or len+-1 (either byte order), plus CR3 files whose PRVW box states an arbitrary preview size; each call runs in a worker process (GOMAXPROCS=1, ulimit -v 8 GiB, one warming call before) and the TotalAlloc delta must stay <= 4 MiB + 16 x len(b); OOM death and makeslice panics are violations.",
   "Trusted: runtime.MemStats.TotalAlloc as the allocation measure; the worker protocol. Inputs <= 256 KiB."),
+
+ "C13": ("exploration",
+  "property-based testing (rapid): round trip through an independent XMP serialiser with typed text-to-value rules; metamorphic attribute form vs element form",
+  "A logical record (1-14 of 38 supported simple properties with typed values whose lengths land on the reader's look-ahead steps, plus five dc arrays and ISOSpeedRatings) is serialised with generated layout choices (form per property, quotes, order, 1-3 Description blocks, white space incl. TAB/CR/long runs, unknown properties, junk, xpacket wrapper, entities) and parsed: the result must equal the record field by field, the all-attribute and all-element forms must parse identically, and a token longer than the 1538-byte window must give an error.",
+  "Trusted: the serialiser in internal/xmpgen and the text-to-value rules in props/c13 (DESIGN Appendix B). Value alphabet excludes raw markup characters; GPS DMS text, dates without seconds and rdf:parseType structures are not generated."),
 }
 NOT_APPLICABLE = {}
